@@ -46,16 +46,20 @@ var verifStubDecode bool
 // VerifStubDecode lets harnesses of other packages (graphsync extension) enable the stub decoder natively.
 func VerifStubDecode(on bool) {
 	verifStubDecode = on
+	VerifDecodeBudget = 0
 	VerifDecodedNodes = nil
 	VerifDecodeCalls = 0
 	VerifLastDecoded = nil
 }
 
+// VerifDecodeBudget, when > 0, makes the stub decoder fail after that many calls (bounded streams).
+var VerifDecodeBudget int
+
 // ghost log of the stub decoder
 var (
-	VerifDecodeCalls  int
-	VerifDecodedNodes []datamodel.Node    // argument of every TypeFromNode call
-	VerifLastDecoded  *TransferMessage1_1 // what the last successful decode produced
+	VerifDecodeCalls   int
+	VerifDecodedNodes  []datamodel.Node    // argument of every TypeFromNode call
+	VerifLastDecoded   *TransferMessage1_1 // what the last successful decode produced
 	VerifLastDecodeErr error
 )
 
@@ -80,6 +84,10 @@ func verifNodeSeam(br bindnoderegistry.BindnodeRegistry) func(datamodel.Node, in
 func verifDecoded() (interface{}, error) {
 	VerifDecodeCalls++
 	VerifLastDecoded, VerifLastDecodeErr = nil, nil
+	if VerifDecodeBudget > 0 && VerifDecodeCalls > VerifDecodeBudget {
+		VerifLastDecodeErr = zz.Error("decode.end")
+		return nil, VerifLastDecodeErr
+	}
 	if zz.Bool("decode.fails") {
 		VerifLastDecodeErr = zz.Error("decode.err")
 		return nil, VerifLastDecodeErr
@@ -204,15 +212,15 @@ func verifResponseKinds(r datatransfer.Response) int {
 
 // verifRequestRest: the fields a constructor was NOT given stay empty.
 type verifReqExpect struct {
-	kind     types.MessageType
-	id       datatransfer.TransferID
-	pull     bool
-	paused   bool
-	base     cid.Cid
-	selector datamodel.Node // nil: none
-	voucher  *datatransfer.TypedVoucher
+	kind       types.MessageType
+	id         datatransfer.TransferID
+	pull       bool
+	paused     bool
+	base       cid.Cid
+	selector   datamodel.Node // nil: none
+	voucher    *datatransfer.TypedVoucher
 	hasVoucher bool // the constructor takes a voucher argument at all
-	restart  datatransfer.ChannelID
+	restart    datatransfer.ChannelID
 }
 
 func verifCheckRequest(r datatransfer.Request, e verifReqExpect) {
@@ -250,11 +258,11 @@ func verifCheckRequest(r datatransfer.Request, e verifReqExpect) {
 }
 
 type verifRespExpect struct {
-	kind     types.MessageType
-	id       datatransfer.TransferID
-	accepted bool
-	paused   bool
-	result   *datatransfer.TypedVoucher
+	kind      types.MessageType
+	id        datatransfer.TransferID
+	accepted  bool
+	paused    bool
+	result    *datatransfer.TypedVoucher
 	hasResult bool
 }
 
